@@ -11,7 +11,8 @@ def run(tier, seed):
     ctx = CheckContext("C10", tier, seed)
     ctx.invariants = ["MergeLaws (HistPool)", "MergeLaws (HistND)", "RefusalIsNoOp", "Independence", "SourceUntouched"]
     cfg = "MC_HistPool_c10q" if tier == "quick" else "MC_HistPool_c10t"
-    emb = [("dyadic", 0), ("ulp", 1)] if tier == "quick" else [("dyadic", 0), ("ulp", 1), ("decimal", 0)]
+    # tiny: gaps far below numpy.allclose's tolerance are still gaps - merging across them must be refused
+    emb = [("dyadic", 0), ("ulp", 1), ("tiny", 0)] if tier == "quick" else [("dyadic", 0), ("ulp", 1), ("decimal", 0), ("tiny", 1)]
     # contents assigned through the public setters come in as well; the C10 view leaves dtype / statistics to C13 / C14
     view = FULL_VIEW - {"dtype", "stats"}
     run_pool(ctx, cfg, ["New", "Merge", "MergeRefused", "MergeFracRefused", "MergeMinFreq", "SetFreqHalf"], view, emb)
@@ -26,7 +27,7 @@ def run(tier, seed):
 def nd_part(ctx, tier):
     cfg = "MC_HistND_c10q" if tier == "quick" else "MC_HistND_c10t"
     _res, g = ctx.model_check(cfg, required_actions=["FromArrays", "Merge", "MergeRefused"])
-    for pe, we, sp in [("dyadic", "int", 0), ("ulp", "half", 1)]:
+    for pe, we, sp in [("dyadic", "int", 0), ("ulp", "half", 1), ("tiny", "int", 0)]:
         ctx.replay(g, NDAdapter(POS[pe], WTS[we], spelling=sp), ND_VIEW, label=f"ND:{pe}/{we}/sp{sp}")
 
 
